@@ -218,6 +218,44 @@ def resolvable_names(lang):
     return mons, wds
 
 
+def rewritten_names(lang):
+    """Month/weekday names (every listed variant) that one of the language's own simplifications also matches, e.g. French
+    'sept' (September / the number word 7): the string then has two readings, and strictness must not pick another one
+    than the loose run does.  Computed from the data files."""
+    import regex
+
+    info = vocab.locale_info(lang, lang)
+    pats = []
+    for sim in info.get("simplifications", []) or []:
+        for pat in sim:
+            try:
+                pats.append(regex.compile(r"(?<=\A|\W|_)%s(?=\Z|\W|_)" % pat, regex.I | regex.U))
+            except Exception:
+                pass
+    out = []
+    mm = vocab.meaning_map(info, True)
+    for k in vocab.MONTHS + vocab.WEEKDAYS:
+        for w in info.get(k) or []:
+            if any(ch.isdigit() for ch in w):
+                continue
+            lw = w.lower()
+            if any(p_.search(lw) or p_.search(vocab.lookup_form(lw, True)) for p_ in pats):
+                out.append((k, w))
+            elif len(mm.get(vocab.lookup_form(w, True)) or ()) > 1:     # listed under two keys: two readings as well
+                out.append((k, w))
+    return out
+
+
+def run_rewritten(ctx, lang, order):
+    for k, w in rewritten_names(lang)[:6 if ctx.tier == "quick" else 40]:
+        for toks in (["2013", w] if order.startswith("Y") else [w, "2013"], ["17", w], [w], [w, "10:45"], [w, "17"],
+                     ["17", w, "2013"]):
+            n_g = ctx.counters.get("generated:rewritten-name-strings", 0)
+            relations(ctx, " ".join(toks), lang, ABS, parts_present=None, kind="generated-rewritten-name",
+                      pair=n_g % len(BASE_PAIRS), pref=PREFS[n_g % 3] if n_g % 2 else None)
+            ctx.count("generated:rewritten-name-strings")
+
+
 def run_generated(ctx, desc):
     langs = vocab_languages()
     if ctx.tier == "quick":
@@ -229,6 +267,7 @@ def run_generated(ctx, desc):
             ctx.count("generated:language-without-resolvable-month")
             continue
         order = vocab.locale_info(lang, lang).get("date_order", "MDY")
+        run_rewritten(ctx, lang, order)
         for mw in mons[:2 if ctx.tier == "quick" else 3]:
             for r in range(1, 6):
                 for parts in itertools.combinations(["D", "M", "Y", "W", "T"], r):
